@@ -81,7 +81,7 @@ def isEligible (o : Options) (s : Seg) : Bool := decide (s.liveSize < Int.tdiv o
 def eligibles (o : Options) (segs : List Seg) : List Seg := segs.filter (isEligible o)
 
 /-- `eligible.LiveSize() <= 0` -/
-def isEmpty (s : Seg) : Bool := decide (s.liveSize ≤ 0)
+def isEmptySeg (s : Seg) : Bool := decide (s.liveSize ≤ 0)
 
 /-- `removeSegments` (stable; Go compares interface values holding pointers — with pairwise distinct
 ids that is equality of the `Seg` records) -/
@@ -147,7 +147,7 @@ def prep (o : Options) (calcBudget : Int → Int → Int) (segmentsIn : List Seg
   let elig := eligibles o segments
   let minLive := raiseToFloor o (minLiveSize segments)
   let eligLive := liveSum elig
-  let empties := elig.filter isEmpty
+  let empties := elig.filter isEmptySeg
   { sorted := segments, minLive := minLive, eligiblesLive := eligLive, eligibles := elig,
     budget := calcBudget eligLive minLive, empties := empties,
     eligibles1 := if empties.length > 0 then removeSegments elig empties else elig }
@@ -228,11 +228,11 @@ def tiersNeeded (per g first total : Nat) : Nat → Nat → Option Nat
 new segment holding exactly the live data appears (`index/merge.go executeMergeTask`,
 `planSegmentsToMerge`: empty segments are dropped without a merge) -/
 def executeTask (newId : Nat) (segs task : List Seg) : List Seg :=
-  let rest := removeSegments segs task
-  if liveSum task > 0 then rest ++ [⟨newId, liveSum task, liveSum task⟩] else rest
+  if liveSum task > 0 then removeSegments segs task ++ [⟨newId, liveSum task, liveSum task⟩]
+  else removeSegments segs task
 
 /-- the progress measure of plan/execute histories -/
-def measure (segs : List Seg) : Int := segs.length + fullSum segs
+def mergeMeasure (segs : List Seg) : Int := segs.length + fullSum segs
 
 /-- sizes as the index produces them -/
 def sizesSane (segs : List Seg) : Bool := segs.all fun s => decide (0 ≤ s.liveSize ∧ s.liveSize ≤ s.fullSize)
@@ -257,9 +257,9 @@ def tasksLiveBound (o : Options) (tasks : List (List Seg)) : Bool :=
 def tasksSmallOnly (o : Options) (tasks : List (List Seg)) : Bool :=
   tasks.all fun t => t.all (isEligible o)
 def tasksHomogeneous (tasks : List (List Seg)) : Bool :=
-  tasks.all fun t => t.all isEmpty || t.all (fun s => !isEmpty s)
+  tasks.all fun t => t.all isEmptySeg || t.all (fun s => !isEmptySeg s)
 def tasksSizeBound (o : Options) (tasks : List (List Seg)) : Bool :=
-  tasks.all fun t => t.all isEmpty || decide ((t.length : Int) ≤ o.segmentsPerMergeTask)
+  tasks.all fun t => t.all isEmptySeg || decide ((t.length : Int) ≤ o.segmentsPerMergeTask)
 
 /-- the well-formedness oracle: `none` = well-formed, `some reason` otherwise. The driver evaluates it
 on the tasks returned by the real `mergeplan.Plan`; `BlugeProofs.C19.plan_passes_oracle` proves it is
